@@ -23,7 +23,7 @@ RULE = ("histories of 0-6 steps from {Program(subset/order of libraries), import
 REQUIRED_COUNTERS = ["histories_run", "clean_room_references", "library_snapshots_compared", "duplicate_expectations_checked"]
 ASSUMPTIONS = ["identity of class objects is not compared (package libraries are re-executed per Program)", "order of names in the duplicate message is not judged"]
 
-USER = ["umeta", "upkg._legacy", "ulib", "ulib_extra", "ulibx", "other", "upkg", "upkg_more", "upkg_one", "upkgzone", "upkg.one", "upkg.two", "updup.a", "usub", "updup.c"]
+USER = ["ukw", "umeta", "upkg._legacy", "ulib", "ulib_extra", "ulibx", "other", "upkg", "upkg_more", "upkg_one", "upkgzone", "upkg.one", "upkg.two", "updup.a", "usub", "updup.c"]
 CSV = list(arr.CSV_LIBS)
 NC = list(arr.NC_LIBS)
 PROBES = [["ulib"], ["ulib_extra"], ["ulibx"], ["other"], ["upkg"], ["upkg_more"], ["ulib", "other"], ["other", "ulib"], ["ulib", "ulib_extra"], ["ulib", "ulibx"],
@@ -31,21 +31,24 @@ PROBES = [["ulib"], ["ulib_extra"], ["ulibx"], ["other"], ["upkg"], ["upkg_more"
           ["mpilot.libraries.eems.basic", "ulibx"], ["mpilot.libraries.eems.csv"], ["mpilot.libraries.eems.netcdf"], ["mpilot.libraries.eems.csv", "mpilot.libraries.eems.netcdf"],
           ["upkg.one"], ["upkg.one", "upkg.two"], ["upkg.one", "other"], ["upkg_one"], ["updup"], ["updup.a"], ["updup.a", "updup.b"], ["updup.a", "other"],
           ["mpilot.libraries.eems"], ["upkg", "upkg_one"], [], ["usub"], ["mpilot.libraries.eems.basic", "usub"], ["usub", "mpilot.libraries.eems.basic"], CSV + ["usub"],
-          ["updup.a", "updup.c"], ["updup.c"], ["upkg.two"], ["upkg.named", "upkg.one"], ["usub", "other"], ["wdlib"], ["other", "wdlib"], ["umeta"], ["umeta", "other"], ["upkg._legacy"]]
+          ["updup.a", "updup.c"], ["updup.c"], ["upkg.two"], ["upkg.named", "upkg.one"], ["usub", "other"], ["wdlib"], ["other", "wdlib"], ["umeta"], ["umeta", "other"], ["upkg._legacy"], ["ukw"], CSV + ["ukw"]]
 # expected duplicates by construction of the harness libraries (None = must succeed)
 DUPS = {("ulib", "ulib_extra"): ["Shared"], ("ulib", "ulibx"): ["Alpha"], ("upkg", "upkg_more"): ["PkgOne"],
         ("mpilot.libraries.eems.csv", "mpilot.libraries.eems.netcdf"): ["EEMSRead", "EEMSWrite"],
         ("updup",): ["Shared"], ("updup.a", "updup.b"): ["Shared"], ("mpilot.libraries.eems",): ["EEMSRead", "EEMSWrite"], ("upkg", "upkg_one"): ["PkgOne"],
         ("mpilot.libraries.eems.basic", "usub"): ["Sum"], ("updup.a", "updup.c"): ["Shared"]}
 MODEL = "A = Alpha()\nB = Shared()"
-EXPECTED_NAMES = {"umeta": ["Meta1", "Plain1", "Meta2"], "upkg._legacy": ["Legacy"], "ulib": ["Alpha", "Shared", "AlphaTwo"], "ulib_extra": ["Beta", "Shared"], "ulibx": ["Gamma", "Alpha"], "other": ["Delta", "Not", "Max"], "upkg_one": ["Underscore", "PkgOne"],
+EXPECTED_NAMES = {"ukw": ["MEAN", "AND"], "umeta": ["Meta1", "Plain1", "Meta2"], "upkg._legacy": ["Legacy"], "ulib": ["Alpha", "Shared", "AlphaTwo"], "ulib_extra": ["Beta", "Shared"], "ulibx": ["Gamma", "Alpha"], "other": ["Delta", "Not", "Max"], "upkg_one": ["Underscore", "PkgOne"],
                   "upkgzone": ["Zed"], "updup.a": ["Shared", "OnlyA"], "upkg.two": ["PkgTwo"], "upkg.one": ["PkgOne"], "upkg.named": ["Scale"]}
 
 
 def gen_history(rng):
     steps = []
     for _ in range(rng.choice([1, 1, 2, 3, 4, 6])):
-        k = rng.choice(["program", "program", "program", "import", "define", "run", "program-wd", "cli"])
+        k = rng.choice(["program", "program", "program", "import", "define", "run", "program-wd", "cli", "getcmds"])
+        if k == "getcmds":
+            steps.append(["getcmds"])
+            continue
         if k == "program":
             libs = rng.choice(PROBES + [[rng.choice(USER)], [rng.choice(USER), rng.choice(USER)]])
             steps.append(["program", list(dict.fromkeys(libs))])
@@ -148,7 +151,7 @@ def run_case(ctx, case):
         else:
             # a command file can use exactly the commands of the library: 'Sum' / 'SUM' / 'NOT' load iff Sum / FuzzyNot are there
             lk = ref.get("lookups") or {}
-            for form, cmdname in (("mpilot", "Sum"), ("eems2", "Sum"), ("eems2-not", "FuzzyNot")):
+            for form, cmdname in (("mpilot", "Sum"), ("eems2", "Sum"), ("eems2-not", "FuzzyNot"), ("eems2-mean", "Mean")):
                 want = "loaded" if cmdname in ref["library"] else "CommandDoesNotExist"
                 if lk.get(form) != want:
                     ctx.fail("command-file-lookup:%s:%s-instead-of-%s" % (form, lk.get(form), want), {"probe": probe, "command": cmdname})
@@ -163,6 +166,8 @@ def run_case(ctx, case):
                 if form.startswith("typo-") and not v.startswith("CommandDoesNotExist:"):
                     ctx.fail("command-file-lookup:misspelt-name:%s" % v.split(":")[0], {"probe": probe, "form": form, "got": v[:200]})
                     break
+            if lk.get("libraries-list-extended-later") not in (None, "unchanged"):
+                ctx.fail("program-follows-later-changes-of-the-list-it-was-given", {"probe": probe, "got": lk.get("libraries-list-extended-later")})
             for form, v in lk.items():
                 if form.startswith("api-") and not v.startswith("added:"):
                     ctx.fail("api:command-class-imported-from-a-requested-library-refused:%s" % v, {"probe": probe, "form": form})
